@@ -22,7 +22,7 @@ T = {
          "assumes no FMA contraction in the library build (stated in the evidence); Matrix::Norm (unscaled) stays within 1e+-21"),
  "C05": ("Lean 4 proof: Laplace determinant (with the zero-skip as coded) = Matrix.det, Gauss-Jordan with partial pivoting invariant, soundness and totality + kappa-scaled correspondence + exact-rank oracle",
          "det model equals Matrix.det for every n; Gauss-Jordan with row exchanges keeps Left = Right*M, its result is a two-sided inverse and it is total on invertible matrices; singular/non-square -> diagnostic. Tied to /repo against exact rational results on structured matrices of size 1..7 (4 n kappa eps for the inverse, (n+2) eps perm for the determinant, laws on general doubles).",
-         "known finding C05-singular-residue: exactly singular matrices whose cofactor determinant is a non-zero rounding residue are inverted; determinants that round to 0 are an exclusion (listed)"),
+         "known findings C05-singular-residue (exactly singular matrices whose cofactor determinant is a non-zero rounding residue are inverted) and C05-laplace-cancellation (Laplace determinant loses its sign on matrices with two small singular values); determinants that round to 0 are an exclusion (listed)"),
  "C06": ("Lean 4 proof of the memo machine, binomial formulas (floor formula and gcd-reduced product = Nat.choose), branch totality, clamp, Lentz/series recurrences + mpmath-reference correspondence at the literal tolerances",
          "Proved: factorial memo for every call order, Binomial_Coefficient = Nat.choose on both code paths and symmetric, exactly one GammaQ branch, P,Q in [0,1] and P+Q=1, Lentz index advance and convergents, series positivity, guards (Gamma x<=0, Inv_GammaP/Q p outside [0,1]). Accuracy over the (x,a) domain (a from 1e-320 to 1e4) by correspondence against mpmath: 8/6/16 ulp for the recurrences, 1e-14 references, P,Q in [0,1] exact, monotone at rounding.",
          "accuracy of Lanczos/tgamma, limits of series/continued fraction, quadrature branch, Halley inversion: correspondence-only (mpmath 50 digits)"),
@@ -35,24 +35,24 @@ T = {
  "C09": ("Lean 4 proof that Locate is a function of x alone from every cache state + class A/D correspondence on long histories and object pools",
          "Proved for every table, search state and history: the index search brackets x, is canonical (same index from hunting up/down and bisection, also at knots and in the closed zone), every query answer is independent of the history, prefactors act exactly. Tied to /repo by comparing Locate indices along call sequences of thousands of steps and used objects/copies against fresh objects bit-for-bit; prefactor scaling bit-equal to factor x unit output.",
          "exact arithmetic"),
- "C10": ("Lean 4 proof of guard <-> meaningfulness per entry point on guards REGENERATED from the source on every run (translators/guards.py, 81 guards, gen_*_eq theorems) + outcome correspondence under ASan/UBSan",
+ "C10": ("Lean 4 proof of guard <-> meaningfulness per entry point on guards REGENERATED from the source on every run (translators/guards.py: 95 guards and 81 early-exit lists, gen_*_eq / gen_*_early_eq theorems, 279 obligations) + outcome correspondence under ASan/UBSan",
          "For each guarded entry point: the regenerated guard equals the model's guard for all arguments, the model's guard fires exactly on meaningless requests, and meaningful requests never index out of range, also after object histories (Resize/Assign/Delete). Tied to /repo by running every entry point on both sides of every guard (zero margin at the 1% edge, tables of length 0..3, parameters on both sides of their range) in a forked child of the sanitizer build.",
          "actual memory safety is observed by the sanitizers; the translator (Python) is trusted and cross-checked by the equality proofs and the correspondence run"),
  "C11": ("Lean 4 proof of best-so-far invariants and the exit rule of Bracket/Brent/Nelder-Mead for every objective (constants regenerated) + trace correspondence on distinct points + descent/convergence oracle",
          "Proved for every objective and rounding: result never worse than any starting point, reported state consistent, Find_Maximum f = Find_Minimum (-f), the Nelder-Mead exit rule, independence under memoisation and nested minimisation. Tied to /repo by comparing evaluation traces (bit-exact round-to-double model); an iteration-limit exit on a stated bowl class is a property failure whatever the model does.",
-         "convergence on bowls is decided by the oracle (Brent's own bound in 1-D; empirical constant 256 in 1-2 D); two known findings (Nelder-Mead premature termination / 3-D collapse)"),
+         "convergence on bowls is decided by the oracle (Brent's own bound in 1-D; empirical constant 256 in 1-2 D); four known findings, all of the Nelder-Mead fractional stopping rule (premature termination, 3-D collapse, NMAX creep in 3-D, value ties)"),
  "C12": ("Lean 4 proof of Gauss-Legendre exactness for every n from the CODED recurrence and weights (orthogonality, Christoffel-Darboux, real simple roots in (-1,1), positive weights) + per-order correspondence",
          "Proved for every n: mirror symmetry, reversed limits, overloads agree, affine transfer, size mismatch -> diagnostic; the polynomials of the coded recurrence are orthogonal, have n distinct real roots in (-1,1), the coded weight at the returned node is 2/((1-z^2)P_n'(z)^2) > 0, and the rule is exact to degree 2n-1 on every interval with weights summing to b-a; nested re-entrant use. What is evaluated per order on the library's output is only that its doubles are those roots/weights to rounding (Newton convergence).",
          "convergence of the coded Newton loop and the ordering of the output table: correspondence (rounding-only tolerances since f38103c)"),
  "C13": ("Lean 4 proof of dispatch/nesting/region layout over abstract 1-D integrators + exact-integral correspondence + bitwise limit-reversal oracle",
          "Proved: swap/equal limits for every method, unknown method -> diagnostic at every level, nesting order per axis, separable => product, nested accuracy 2-D/3-D (conditional), Monte-Carlo region layout, spherical wrapper incl. the full sphere, explicit Gauss-Kronrod depth honoured. Tied to /repo on asymmetric integrands with distinct limits per axis against exact integrals: 1e-9 relative to |I| for five methods, reversal negates bit for bit.",
-         "accuracy of the Boost rules: correspondence-only; Trapezoidal's 1e-6 is read relative to the integral of |f| (stated)"),
+         "accuracy of the Boost rules: correspondence-only; Trapezoidal's 1e-6 is read relative to the integral of |f| (stated); known finding C13-adaptive-simpson-accidental-zero"),
  "C14": ("Lean 4 proof of containment/accounting/history-independence/cell arithmetic + seeded self-differential correspondence incl. abandoned and nested calls",
          "Proved: sample points inside the region (brute force; every Miser sample through the whole recursion), Miser accounting/totality/constants exact, independence of the static dithering state, Rebin keeps the Vegas grid increasing, every Vegas array cell read is written first, the stratification odometer (range, maximum attained, full sweep, stale sweep). Tied to /repo with a fixed random_device seed: results after arbitrary histories vs a fresh process bit-for-bit; constants at (n+100) eps / 32 eps.",
-         "six-sigma accuracy: correspondence-only; known finding C14-vegas-constants"),
+         "six-sigma accuracy: correspondence-only; known findings C14-vegas-constants, C14-vegas-peaked-bias, C14-vegas-constant-overflow"),
  "C15": ("Lean 4 proof of Householder/QR algebra over Mathlib matrices + class B correspondence modulo the sign gauge; eigenvector defects as known findings",
          "Proved: Householder reflector symmetric orthogonal and maps to alpha*e1; for the executable list model Q*R = M, Q orthogonal, R upper triangular; sign-gauge invariance; every Eigenvalues iterate is orthogonally similar to M and a returned spectrum sums to the trace. Tied to /repo by comparing Q, R (gauge R_kk >= 0), eigenvalues with the model / exact spectra at flat 64 eps, exact zeros below the diagonal.",
-         "convergence of QR iteration: correspondence-only; Eigensystem/Eigenvectors/slow-swap known findings by call site"),
+         "convergence of QR iteration: correspondence-only; known findings: Eigenvalues slow-swap and nine clause-restricted Eigensystem/Eigenvectors entries"),
  "C16": ("Lean 4 proof of the Rodrigues and spherical-frame identities (norm and hypot as coded) + mpmath-glue correspondence over the whole range of axis lengths and tilts",
          "Proved as polynomial identities for every unit axis and (cos, sin) pair: proper orthogonality, fixed axis, right-handed turn, composition; spherical norm/polar angle/handedness through the three branches of the repaired code. Tied to /repo on generated angles/axes: lengths 5e-324..1.7e308, tilts from +-z 5e-324..1e-1, at 32/32/8 eps.",
          "sqrt/cos/sin enter as parameters with their algebraic properties as hypotheses"),
@@ -67,7 +67,7 @@ T = {
          "exp/log and sqrt: correspondence-only; rounding-level near ties of Locate_Closest_Location and < 3 ulp per step of Log_Space are listed exclusions"),
  "C20": ("Lean 4 proof on a model REGENERATED from Natural_Units.cpp on every run (translator) + byte-level export/import proofs and correspondence + four-compiler-configuration run",
          "Proved: six-digit round trip from characters to values (parseDec o render, tokenizer, line counting under any chunking, bytes round trip for tables and lists incl. the empty table), In_Units laws; initialisation-order soundness and derived-unit identities on the regenerated unit table (kernel decide); every quotient of finite doubles is inside the long double reader range. Tied to /repo by comparing exported bytes with the model's rendering and the constants and round trips of builds with g++/clang++ at -O0/-O2.",
-         "the translator (Python) and the assumption about compilers (foldable initialisers are folded) are trusted and cross-checked with nm; long double is assumed to be x87 80-bit (where it is double the repair 5c3fb95 is a no-op)"),
+         "the translator (Python) and the assumption about compilers (foldable initialisers are folded) are trusted and cross-checked with nm; known finding C20-ragged-total (ragged file whose entry count is divisible by the first row's length); long double is assumed to be x87 80-bit (where it is double the repair 5c3fb95 is a no-op)"),
 }
 
 CLAIMED_FILE = os.path.join(VERIF, "tools", "claimed.json")
